@@ -90,3 +90,40 @@ func WriteConsensusValidatorsInfo(db kaidb.KeyValueWriter, hash common.Hash, val
 func DeleteConsensusValidatorsInfo(db kaidb.KeyValueWriter, hash common.Hash) error {
 	return db.Delete(calcConsensusValidatorsInfoKey(hash))
 }
+
+// Kinds of validator sets kept per consensus state height.
+const (
+	HeightValSetLast    byte = 'l'
+	HeightValSetCurrent byte = 'v'
+	HeightValSetNext    byte = 'n'
+)
+
+// ReadConsensusHeightValSet reads the exact validator set (proposer priorities
+// included) that the consensus state of the given height was saved with.
+func ReadConsensusHeightValSet(db kaidb.Reader, height uint64, kind byte) *kstate.ValidatorsInfo {
+	buf, err := db.Get(calcConsensusHeightValSetKey(height, kind))
+	if err != nil {
+		return nil
+	}
+
+	vi := new(kstate.ValidatorsInfo)
+	err = proto.Unmarshal(buf, vi)
+	if err != nil {
+		return nil
+	}
+
+	return vi
+}
+
+func WriteConsensusHeightValSet(db kaidb.KeyValueWriter, height uint64, kind byte, valInfo kstate.ValidatorsInfo) error {
+	bz, err := valInfo.Marshal()
+	if err != nil {
+		return err
+	}
+
+	return db.Put(calcConsensusHeightValSetKey(height, kind), bz)
+}
+
+func DeleteConsensusHeightValSet(db kaidb.KeyValueWriter, height uint64, kind byte) error {
+	return db.Delete(calcConsensusHeightValSetKey(height, kind))
+}
